@@ -116,7 +116,11 @@ let sx_optlen s = if atom s = "none" then None else Some (sx_n s)
 let rec sx_sval s : sval =
   let (h, a) = head s in
   let int signed w = SInt (signed, w, sx_z (L.hd a)) in
-  let fields fs = L.map (function Ls [f; v] -> (sx_bytes f, sx_sval v) | _ -> failwith "bad field") fs in
+  (* (skipfield xF) = SerializeStruct::skip_field(F), what a derived impl calls for a field left out by skip_serializing_if:
+     serde's provided method, a no-op returning Ok(()), which the crate's record serializer does not override -- the model's
+     struct presentations have no such event, the driver drops it *)
+  let fields fs = L.filter_map (function Ls [A "skipfield"; _] -> None
+                                       | Ls [f; v] -> Some (sx_bytes f, sx_sval v) | _ -> failwith "bad field") fs in
   match h, a with
   | "bool", [b] -> SBool (atom b <> "0")
   | "i8", _ -> int true W8 | "i16", _ -> int true W16 | "i32", _ -> int true W32
